@@ -7,6 +7,7 @@ open SdnsVerif.Model SdnsVerif.Model.Edns SdnsVerif.Model.Util
 
 structure State where
   cfg : Cfg := {}
+  secretLen : Nat := 0
 
 /-- the size constants of the compiled tree (regenerated every run). -/
 def consts : Consts :=
@@ -97,7 +98,7 @@ def parseR (s : String) : Option Up :=
 /-- the scripted handler: `SetReply(request as seen)` + the scripted content.
 `ownOpt`: the request's OPT is the writer's `w.opt` object (decoded path). -/
 def upstream (u : Up) (ownOpt : Bool) (q : Query) : Option Msg :=
-  if u.mode == "n" then none else
+  if u.mode == "n" || u.mode == "p" then none else
   let optRR : Option RR :=
     if u.same then (match q.opt with | some o => some (.opt o ownOpt) | none => none)
     else (match u.opt with | some o => some (.opt o false) | none => none)
@@ -174,9 +175,10 @@ def verdictName : Verdict → String
 
 def step (st : State) (w : List String) : State × String :=
   match w with
-  | ["edns", "new", nsid, _secret, ecs, ka] =>
+  | ["edns", "new", nsid, secret, ecs, ka] =>
     match hexBytes nsid, parseBool ecs, ka.toNat? with
-    | some n, some e, some k => ({ st with cfg := { nsid := n, ecs := e, kaUnits := k } }, "ok")
+    | some n, some e, some k =>
+      ({ st with cfg := { nsid := n, ecs := e, kaUnits := k }, secretLen := if secret == "t" then 17 else 0 }, "ok")
     | _, _, _ => (st, "bad-op")
   | ["edns", "set0", q] =>
     match parseQ q with
@@ -191,11 +193,58 @@ def step (st : State) (w : List String) : State × String :=
       let L := msgLen true
       let Lu := msgLen false
       let wire := path == "w" && wireEligible q
+      let wb := wire && (q.opt.isNone || (q.opt.map (·.version)) == some 0)
       let res :=
-        if wire && (q.opt.isNone || (q.opt.map (·.version)) == some 0) then
+        if u.mode == "p" then
+          serveGuarded L Lu consts st.cfg p q wb (fun _ => .panic)
+        else if wb then
           serveWireBorn L Lu consts st.cfg p q (upstream u false)
         else serveDNS L Lu consts st.cfg p q (upstream u (!wire))
       (st, showReply q res)
+    | _, _, _ => (st, "bad-op")
+  | ["edns", "wirewrite", path, proto, blen, q, r] =>
+    match parseProto proto, parseQ q, parseR r, blen.toNat? with
+    | some p, some q, some u, some bodyLen =>
+      let s0 := setEdns0 consts st.cfg.ecs q.opt
+      let wire := path == "w" && wireEligible q
+      let w := if wire then writerWire consts p q else writerDecoded consts p q s0
+      match upstream u false (normalised q s0) with
+      | none => (st, "bad-op")
+      | some m =>
+        let body := { m with extra := m.extra.filter (fun r => !r.isOpt) }
+        let info : WireInfo :=
+          { rcode := m.rcode, ad := m.fl.ad,
+            hasDnssec := (m.answer ++ m.ns).any RR.isDnssec && q.question.qtype != typeRRSIG,
+            ede := (match u.opt with
+                    | some o => if u.ex.contains 'O' then
+                        o.options.find? (fun x => match x with | .raw c d => c == codeEDE && d.length ≥ 2 | _ => false)
+                      else none
+                    | none => none) }
+        match wireReady st.cfg st.secretLen w (p == .udp || p == .tcp) with
+        | none => (st, "notready")
+        | some cp =>
+          let head := s!"ready do={boolStr cp.do_} reserve={cp.reserve} max={cp.maxSize}"
+          -- the packed body length is measured by the harness; the OPT adds its exact encoding
+          let L := fun (x : Msg) => bodyLen + ((x.extra.filter RR.isOpt).map (rrLen true)).sum
+          (match writeWire L st.cfg w body info with
+           | none => (st, head ++ " fallback")
+           | some r => (st, head ++ " " ++ showReply q (some r)))
+    | _, _, _, _ => (st, "bad-op")
+  | ["edns", "cachewire", d, q, r] =>
+    match parseBool d, parseQ q, parseR r with
+    | some d, some q, some u =>
+      (match upstream u false q with
+       | none => (st, "bad-op")
+       | some m =>
+         match newWEntry m with
+         | none => (st, "nocache")
+         | some e =>
+           let head := s!"has={boolStr e.hasDnssec} stripped={boolStr e.stripped.isSome}"
+           (match serveWireInto e q d with
+            | none => (st, head ++ " none")
+            | some (b, info) =>
+              let ede := match info.ede with | some (.raw _ dd) => bytesHex dd | _ => "-"
+              (st, head ++ s!" info rc={info.rcode} ad={boolStr info.ad} dnssec={boolStr info.hasDnssec} ede={ede} body " ++ showReply q (some b))))
     | _, _, _ => (st, "bad-op")
   | ["edns", "tomsg", q, r] =>
     match parseQ q, parseR r with
@@ -207,6 +256,18 @@ def step (st : State) (w : List String) : State × String :=
          | none => (st, "nocache"))
       | none => (st, "bad-op")
     | _, _ => (st, "bad-op")
+  | ["edns", "parsewire", pkt] =>
+    match hexBytes pkt with
+    | some b =>
+      (match parseWire (b.map (·.toNat)) with
+       | none => (st, "no")
+       | some f =>
+         let has := fun c => f.options.any (fun o => o.1 == c)
+         let cookie := match f.options.find? (fun o => o.1 == codeCookie) with
+           | some o => natsHex o.2 | none => "-"
+         let opt := if f.hasOPT then s!"{f.udp}/{boolStr f.doBit}/{f.version}" else "-"
+         (st, s!"ok id={f.id} op={flagOpcode f.flags} rd={boolStr (f.flags / 256 % 2 == 1)} ad={boolStr (flagAD f.flags)} cd={boolStr (f.flags / 16 % 2 == 1)} qt={f.qtype} qc={f.qclass} nl={f.nameLen} opt={opt} ecs={boolStr (has codeECS)} nsid={boolStr (has codeNSID)} ka={boolStr (has codeKeepalive)} cookie={cookie}"))
+    | none => (st, "bad-op")
   | ["accept", "hdr", fl, qd, an, ns, ar] =>
     match fl.toNat?, qd.toNat?, an.toNat?, ns.toNat?, ar.toNat? with
     | some fl, some qd, some an, some ns, some ar => (st, verdictName (acceptHeader fl qd an ns ar))
@@ -214,11 +275,11 @@ def step (st : State) (w : List String) : State × String :=
   | "srv" :: "new" :: _ => (st, "ok")
   | ["srv", "stop"] => (st, "ok")
   | "srv" :: "q" :: _ => (st, "unmodelled")
-  | ["srv", "raw", entry, pkt, _r] =>
+  | ["srv", "raw", entry, pkt, _r, dec] =>
     if entry == "sockudp" || entry == "socktcp" then
       match hexBytes pkt with
       | some b =>
-        (match listenerHeaderStep (b.map (·.toNat)) with
+        (match listenerStep (b.map (·.toNat)) (dec != "dec=f") with
          | none => (st, "unmodelled")
          | some none => (st, "silent")
          | some (some bytes) => (st, s!"bytes={natsHex bytes}"))
